@@ -66,11 +66,12 @@ structure Detector where
   minMtu : Nat
 deriving Repr, DecidableEq
 
-/-- `MtuDiscovery` -/
+/-- `MtuDiscovery` (`peerMax`: the peer's max_udp_payload_size remembered outside the optional discovery state) -/
 structure State where
   currentMtu : Nat
   state : Option Enabled
   det : Detector
+  peerMax : Nat
 deriving Repr, DecidableEq
 
 inductive Out where
@@ -224,14 +225,16 @@ def Detector.blackHoleDetected (d : Detector) : Detector × Bool :=
 /-! ### MtuDiscovery -/
 
 /-- `MtuDiscovery::with_state` -/
-def withState (currentMtu minMtu : Nat) (state : Option Enabled) : State := ⟨currentMtu, state, Detector.new minMtu⟩
+def withState (currentMtu minMtu : Nat) (state : Option Enabled) : State :=
+  ⟨currentMtu, state, Detector.new minMtu, Gen.mtudInitialPeerMax⟩
 
 /-- `MtuDiscovery::disabled` -/
 def disabled (plpmtu minMtu : Nat) : State := withState plpmtu minMtu none
 
-/-- `MtuDiscovery::on_peer_max_udp_payload_size_received` (the `debug_assert!` fires after `current_mtu` was updated) -/
+/-- `MtuDiscovery::on_peer_max_udp_payload_size_received` (the `debug_assert!` fires after `current_mtu` and the
+    remembered limit were updated) -/
 def onPeerMax (s : State) (peerMax : Nat) : State × Out :=
-  let s := { s with currentMtu := Gen.mtudPeerClamp s.currentMtu peerMax }
+  let s := { s with currentMtu := Gen.mtudPeerClamp s.currentMtu peerMax, peerMax := peerMax }
   match s.state with
   | none => (s, .unit)
   | some e =>
@@ -251,7 +254,7 @@ def new (initialPlpmtu minMtu : Nat) (peerMax : Option Nat) (config : Config) : 
 def reset (s : State) (currentMtu minMtu : Nat) : State :=
   let s := { s with currentMtu := currentMtu }
   let s := match s.state with
-    | none => s
+    | none => { s with currentMtu := Gen.mtudResetClamp s.currentMtu s.peerMax }
     | some st => (onPeerMax { s with state := some (Enabled.new st.config) } st.peerMax).1
   { s with det := Detector.new minMtu }
 
@@ -269,7 +272,7 @@ def onAcked (s : State) (isData : Bool) (pn len : Nat) : State × Out :=
   if !isData then (s, .bool false) else
   match s.state.bind (fun e => e.onProbeAcked pn) with
   | some (e', newMtu) =>
-    ({ currentMtu := newMtu, state := some e', det := s.det.onProbeAcked pn len }, .bool true)
+    ({ s with currentMtu := newMtu, state := some e', det := s.det.onProbeAcked pn len }, .bool true)
   | none => ({ s with det := s.det.onNonProbeAcked pn len }, .bool false)
 
 /-- `MtuDiscovery::in_flight_mtu_probe` -/
@@ -292,7 +295,8 @@ def blackHoleDetected (s : State) (now : Nat) : State × Out :=
   match s.det.blackHoleDetected with
   | (d, false) => ({ s with det := d }, .bool false)
   | (d, true) =>
-    ({ currentMtu := d.minMtu, state := s.state.map (fun e => e.onBlackHoleDetected now), det := d }, .bool true)
+    ({ s with currentMtu := Gen.mtudBlackHoleMtu s.currentMtu d.minMtu,
+              state := s.state.map (fun e => e.onBlackHoleDetected now), det := d }, .bool true)
 
 /-! ### Operations on an existing `MtuDiscovery` (what `Connection` / `PathData` call) -/
 
